@@ -200,7 +200,38 @@ def from_json(j):
 def unwrap(ts):
     while ts[0] == "Wrapped":
         ts = WRAPPED[ts[1]][1]
+    # typing flattens nested unions: Optional[Union[A, B]] is Union[A, B, None], Union[Union[A, B], C] is Union[A, B, C]
+    if ts[0] == "Optional":
+        inner = unwrap(ts[1])
+        if inner[0] == "Union":
+            return ("Union", *inner[1:], ("None",)) if ("None",) not in inner[1:] else inner
+        if inner[0] == "Optional":
+            return inner
+    if ts[0] == "Union":
+        cases = []
+        for c in ts[1:]:
+            u = unwrap(c)
+            if u[0] == "Union":
+                cases.extend(u[1:])
+            elif u[0] == "Optional":
+                cases.extend([u[1], ("None",)])
+            else:
+                cases.append(c)
+        dedup = []
+        for c in cases:
+            if c not in dedup:
+                dedup.append(c)
+        if len(dedup) != len(ts) - 1 or any(a is not b for a, b in zip(dedup, ts[1:])):
+            return ("Union", *dedup)
     return ts
+
+
+def has_multi_union(ts):
+    """does the type contain a union with two or more non-None cases? (each case loader consumes a one-shot iterator)"""
+    u = unwrap(ts)
+    if u[0] == "Union" and len([c for c in u[1:] if unwrap(c)[0] != "None"]) >= 2:
+        return True
+    return any(has_multi_union(t) for t in u[1:] if isinstance(t, tuple))
 
 
 def depth(ts):
@@ -224,13 +255,18 @@ def result_hashable(ts):
     return all(result_hashable(t) for t in ts[1:] if isinstance(t, tuple))
 
 
+ABSTRACT_COLLECTIONS = {"Sequence", "MutableSequence", "Iterable", "Reversible", "Collection", "AbstractSet", "MutableSet", "Mapping",
+                        "MutableMapping", "ByteString", "PathLike"}
+
+
 def dumper_exists(ts):
-    """Union dumper works only with class type hints and Literal (documented)."""
+    """Union dumper works only with class type hints and Literal (documented); it picks the case by the .mro() of the value's
+    class (documented), which never contains an abstract collection class: unions with such cases are left out."""
     ts = unwrap(ts)
-    if ts[0] == "Union":
+    if ts[0] == "Union" and len([c for c in ts[1:] if unwrap(c)[0] != "None"]) >= 2:
         for case in ts[1:]:
             c = unwrap(case)
-            if c[0] in ("Any", "LiteralString", "Union", "Optional"):
+            if c[0] in ("Any", "LiteralString", "Union", "Optional") or c[0] in ABSTRACT_COLLECTIONS:
                 return False
     return all(dumper_exists(t) for t in ts[1:] if isinstance(t, tuple))
 
